@@ -394,7 +394,8 @@ def model_terms(case, bv):
     if r.startswith("cli"):
         return [f"o_upd (route_cli {bv} here {clist(case['args'], cstr)})"]
     if r == "profile":
-        return [f"o_upd (route_profile {bv} here (IInt 1000) {ckw(case['options'])} {ckw(case['kw'])})"]
+        # the options section reaches the loader through YAML, whose writer sorts keys
+        return [f"o_upd (route_profile {bv} here (IInt 1000) {ckw(sorted(case['options'], key=lambda kv: kv[0]))} {ckw(case['kw'])})"]
     if r == "write-load":
         return [f"o_opts (write_options {bv} here {ckw(case['kw'])})",
                 f"o_upd (match write_options {bv} here {ckw(case['kw'])} with Ok o => route_profile {bv} here {civ(case.get('nv', 0))} o [] | Err n => Err n | Unsupported => Unsupported end)"]
